@@ -30,6 +30,7 @@ properties! {
     "C09" => c09,
     "C11" => c11,
     "C12" => c12,
+    "C13" => c13,
     "C14" => c14,
     "C15" => c15,
     "C16" => c16,
@@ -44,6 +45,14 @@ fn main() {
     if args.len() < 2 {
         eprintln!("usage: vcheck <Cxx> quick|thorough | vcheck replay <file>");
         std::process::exit(2);
+    }
+    if args[1] == "worker" {
+        // subprocess entry point for checks that isolate cases: vcheck worker <Cxx> <case json>
+        let code = match args.get(2).map(|s| s.as_str()) {
+            Some("C13") => props::c13::worker(&args[3]),
+            _ => 2,
+        };
+        std::process::exit(code);
     }
     if args[1] == "replay" {
         let text = std::fs::read_to_string(&args[2]).expect("replay file");
